@@ -663,6 +663,9 @@ Proof.
       intro H; inversion H; subst. now apply Hsame.
   - (* CShowVar *)
     intro H; inversion H; subst. now apply Hsame.
+  - (* CRefCopy *)
+    destruct (assoc r0 (refs st)) as [[| | |]|]; try discriminate;
+      intro H; apply Hsetref in H; destruct H as (? & ? & ? & ?); now apply Hsame.
 Qed.
 
 (* ------------------------------------------------------------------ the invariant *)
@@ -781,6 +784,10 @@ Proof.
       inversion Hs; subst. eapply Hr; eassumption.
   - (* CShowVar *)
     inversion Hs; subst. eapply Hr; eassumption.
+  - (* CRefCopy *)
+    destruct (assoc r1 (refs st)) as [[|u1| |p t]|] eqn:Ha; try discriminate;
+      apply (Hsr _ _ Hs); intro E; inversion E; subst.
+    apply assoc_in in Ha. eapply Hr; eassumption.
 Qed.
 
 Lemma seqZ_split a b c z : a <= b -> b <= c ->
@@ -986,6 +993,7 @@ Proof.
     destruct v; try (destruct k; discriminate);
       (destruct (resolve_rv st _); cbn [obind]; [discriminate|congruence]).
   - discriminate.
+  - unfold set_ref. destruct (assoc r0 (refs st)) as [[| | |]|]; try discriminate; destruct (fresh_ref st r); discriminate.
 Qed.
 
 (* ------------------------------------------------------------------ transactions *)
